@@ -366,6 +366,19 @@ class Definitions(AggBase):
                 f = agg_one(env, fn, [[kind, len(items)]], items)
                 if f:
                     out.append(f)
+        if items == sorted(items) and len(set(items)) > 1 and items[0] <= 0:
+            # GEOMEAN / HARMEAN of a list with an item <= 0 have no textbook value (which error, or which value, is not demanded) -
+            # but whatever they give, they give it in every order of the items
+            for fn in ('GEOMEAN', 'HARMEAN'):
+                seen = {}
+                for perm in sorted(set(itertools.permutations(items))):
+                    f = '%s(%s)' % (fn, ','.join(lit(x) for x in perm))
+                    o = env.evo(f)
+                    seen.setdefault('error' if o[0] == 'e' else repr(o), f)
+                if len(seen) > 1:
+                    out.append(fail('%s of the items %r depends on their order: %s' % (
+                        fn, items, '; '.join('%s gives %s' % (f, 'an error value' if k == 'error' else k) for k, f in sorted(seen.items()))),
+                        'one outcome', sorted(seen)))
         return out[:8]
 
 
@@ -1104,6 +1117,11 @@ class ErrorItems(Sub):
                         yield ['e', rest[:pos] + [{'$err': code}] + rest[pos:]]
                     for expr in ERR_EXPRS:
                         yield ['x', rest[:pos] + [{'$expr': expr}] + rest[pos:]]
+        # the other items may be beyond what their sum or product can hold: the error item is the result all the same
+        for rest in ([10 ** 400, 1.5], [2.5, 10 ** 309], [10 ** 200, 10 ** 200, 1.5], [-(10 ** 309), 0.5, 3]):
+            for pos in range(len(rest) + 1):
+                for code in ('#DIV/0!', '#N/A'):
+                    yield ['e', rest[:pos] + [{'$err': code}] + rest[pos:]]
         for ca in ERR_CODES:
             for cb in ERR_CODES:
                 if ca != cb:
@@ -1122,6 +1140,63 @@ class ErrorItems(Sub):
                 if f:
                     out.append(f)
         return out[:8]
+
+
+class ExtremeItems(Sub):
+    name = 'c11.extreme_items'
+    rule = ('MEDIAN, AVERAGE, MIN, MAX and LARGE over 2..4 items near or beyond the largest double whose SUM cannot be held '
+            'but whose statistic can (10^309 twice, 10^400 and 10^400+2, 1.5e308 and 1.7e308, ...) in every order, as arguments and '
+            'as a host list: the exact statistic (whole results exactly, others within 1e-9); non-trivial = all')
+    min_cases = 20
+    min_nontrivial = 20
+    LISTS = [[10 ** 309, 10 ** 309], [10 ** 400, 10 ** 400 + 2], [1.5e308, 1.7e308], [1.7e308, 1.7e308, 1.0], [10 ** 309, 10 ** 309 + 4, 7, 10 ** 310],
+             [-1.5e308, -1.7e308], [1e308, 1.5e308, 1.6e308, 1.7e308], [2 ** 1024, 2 ** 1024 + 2], [-(10 ** 309), 10 ** 309]]
+    FUNCS = ['MEDIAN', 'AVERAGE', 'MIN', 'MAX', 'LARGE2']
+
+    def cases(self, tier, unit):
+        for li in range(len(self.LISTS)):
+            for fn in self.FUNCS:
+                yield [li, fn]
+
+    def check(self, env, case):
+        items, fn = self.LISTS[case[0]], case[1]
+        env.nt()
+        env.note(fn)
+        k = None
+        if fn == 'LARGE2':
+            fn, k = 'LARGE', 2
+        spec = ref_stat(fn, items, k)
+        want = spec[1]
+        if want.denominator != 1 and abs(want) > Fraction(repr(1.7976931348623157e308)):
+            env.note('not representable')
+            return None
+        for perm in sorted(set(itertools.permutations(items)), key=repr):
+            for form in ('a', 'h'):
+                if form == 'a' and k:
+                    continue            # LARGE takes one array
+                if form == 'a':
+                    # whole numbers as literals, floats (no literal spells 1.5e308 exactly) through scalar variables
+                    vars_ = dict(('item' + AZ[i], x) for i, x in enumerate(perm) if isinstance(x, float))
+                    f = '%s(%s%s)' % (fn, ','.join('item' + AZ[i] if isinstance(x, float) else lit(x) for i, x in enumerate(perm)), ',2' if k else '')
+                elif k:
+                    f, vars_ = 'LARGE(arr,2)', {'arr': list(perm)}
+                else:
+                    f, vars_ = '%s(arr)' % fn, {'arr': list(perm)}
+                o = env.evo(f, vars_)
+                ok = False
+                if o[0] == 'v' and isinstance(o[1], dict) and '$int' in o[1]:
+                    o = ['v', int(o[1]['$int'], 0)]
+                if o[0] == 'v' and isinstance(o[1], int) and not isinstance(o[1], bool):
+                    ok = o[1] == want
+                elif o[0] == 'v' and isinstance(o[1], float) and math.isfinite(o[1]):
+                    ok = abs(Fraction(o[1]) - want) <= abs(want) * Fraction(1, 10 ** 9)
+                if not ok:
+                    shown = repr(o) if o[0] == 'e' or not isinstance(o[1], int) or abs(o[1]) < 2 ** 63 else '%d-bit whole number' % o[1].bit_length()
+                    return fail('%s%s = %s, expected %s (the statistic can be held although the sum of the items cannot)' % (
+                        f if len(f) < 200 else f[:200] + '...', ' with %s' % (repr(vars_)[:160],) if vars_ else '', shown,
+                        float(want) if abs(want) < 10 ** 308 else '%d-digit number %s...' % (len(str(abs(want.numerator))), str(want.numerator)[:12])),
+                        'the exact statistic', shown)
+        return None
 
 
 class AggWholeFloats(WholeFloats):
@@ -1158,5 +1233,5 @@ class StatSiblings(Siblings):
     ]
 
 
-SUBS = [Definitions(), Regrouping(), Large(), LongLists(), Slope(), CriteriaNumeric(), CriteriaText(), CriteriaBrackets(), CriteriaMixed(), Scale(),
+SUBS = [ExtremeItems(), Definitions(), Regrouping(), Large(), LongLists(), Slope(), CriteriaNumeric(), CriteriaText(), CriteriaBrackets(), CriteriaMixed(), Scale(),
         ErrorItems(), AggWholeFloats(), StatSiblings()]
